@@ -152,7 +152,7 @@ func visitQuiet(v Visit, toks []string, text []byte) bool {
 }
 
 // ByteAlphabet for raw lexical exploration.
-var ByteAlphabet = []byte{'a', '1', '0', '"', '\'', '\\', '#', '\n', '\r', ' ', ',', '.', '-', 'e', 'u', '{', '}', 0xC3, 0xA9, 0xEF, 0xBB, 0xBF, '\t'}
+var ByteAlphabet = []byte{'a', '1', '0', '"', '\'', '\\', '#', '\n', '\r', ' ', ',', '.', '-', 'e', 'u', '{', '}', 0xC3, 0xA9, 0xEF, 0xBB, 0xBF, '\t', 0x07, 0x00}
 
 // Bytes enumerates all byte strings of length 1..maxLen over ByteAlphabet (sharded by
 // the first two bytes).
@@ -216,7 +216,7 @@ func Bytes(maxLen, shard, nshards int, visit func(text []byte)) {
 // UnitAlphabet: like ByteAlphabet but multi-byte characters are single units (only valid
 // UTF-8 is produced), including the Unicode line/paragraph separators and NEL, which are
 // NOT line terminators in GraphQL.
-var UnitAlphabet = []string{"a", "1", "\"", "\\", "#", "\n", "\r", " ", ",", ".", "-", "{", "}", "\u00e9", "\ufeff", "\u2028", "\u0085", "\t", "\U0001F600"}
+var UnitAlphabet = []string{"a", "1", "\"", "\\", "#", "\n", "\r", " ", ",", ".", "-", "{", "}", "\u00e9", "\ufeff", "\u2028", "\u0085", "\t", "\U0001F600", "\x07", "\x7f"}
 
 // Units enumerates all concatenations of 1..maxLen units (sharded by the first two).
 func Units(maxLen, shard, nshards int, visit func(text []byte)) {
